@@ -37,6 +37,8 @@ func checkC16(c *Ctx) {
 	c16BuiltinEncodersAppendOnce(c, "R16.9")
 	c.Rule("R16.8", "the column collector stores what it is given as values of its own: bytes as a string copy, nested values in fresh containers (a view of a sub-encoder's scratch buffer would be rewritten by the next column before the line is printed)", 20)
 	c.As(map[string]string{"R2.3": "R16.8"}, func() { c2Reference(c) })
+	c.Rule("R16.10", "the context object is valid JSON: strings, times and layouts written by the JSON encoder reach the line escaped (the console context is the JSON encoder's output)", 27)
+	c1Taint(c, "R16.10")
 	c.Rule("R16.7", "the pooled column encoder (and every other pooled object) is not used, and nothing that points into its storage is returned, after it went back to its pool", 8)
 	c8UseAfterRelease(c, "R16.7", c8ReleaseFns(c))
 
